@@ -87,8 +87,27 @@ def rprice(rng):
 MIXED = {"C06": 0.15, "C07": 0.15, "C09": 0.15, "C10": 0.15, "C08": 0.15}
 
 
+def country_of(case):
+    """(country object, long-term period in days) of a case; default US"""
+    c = case.get("country", "us")
+    if c == "us":
+        return US(), 365
+    if c == "generic":
+        from rp2.plugin.country.generic import Generic
+        os.environ["CURRENCY_CODE"] = "usd"
+        os.environ["LONG_TERM_CAPITAL_GAINS"] = str(case["period"])
+        return Generic(), case["period"]
+    from rp2.plugin.country.jp import JP
+    from rp2.plugin.country.ie import IE
+    return (JP() if c == "jp" else IE()), sys.maxsize
+
+
 def gen(rng, prop=None):
     n = rng.randint(2, 14)
+    country, PERIOD = "us", 365
+    if prop == "C05":
+        country = rng.choice(["us", "us", "generic", "generic", "jp", "ie"])
+        PERIOD = {"us": 365, "generic": rng.choice([0, 1, 30, 123, 365, 366]), "jp": 365, "ie": 365}[country]     # jp/ie: placed at 365 days, must stay short
     pool = sorted(rng.sample(range(0, 1200), rng.randint(2, 6)))
     offs = [0] if rng.random() > MIXED.get(prop, 0.4) else [0, -8 * 3600, 5 * 3600 + 1800, 14 * 3600, -12 * 3600]
     if offs == [0] and rng.random() < 0.35:
@@ -164,7 +183,11 @@ def gen(rng, prop=None):
         fd, td = td, fd
     ms = ["fifo", "lifo", "hifo", "lofo"]
     sched = {"1970": rng.choice(ms)} if rng.random() < 0.6 else {"1970": rng.choice(ms), "2020": rng.choice(ms), "2021": rng.choice(ms)}
-    return {"sched": sched, "rows": rows, "from": fd.isoformat() if fd else None, "to": td.isoformat() if td else None, "neg": rng.random() < (0.3 if prop == "C08" else 0.5)}
+    case = {"sched": sched, "rows": rows, "from": fd.isoformat() if fd else None, "to": td.isoformat() if td else None, "neg": rng.random() < (0.3 if prop == "C08" else 0.5)}
+    if prop == "C05":
+        case["country"] = country
+        case["period"] = PERIOD
+    return case
 
 
 def build_asset(cfg, a, rows):
@@ -185,7 +208,7 @@ def build_asset(cfg, a, rows):
 def run_impl(case, fd="case", td="case", rows=None):
     fd = (date.fromisoformat(case["from"]) if case["from"] else MIN_DATE) if fd == "case" else fd
     td = (date.fromisoformat(case["to"]) if case["to"] else MAX_DATE) if td == "case" else td
-    cfg = Configuration(INI, US(), from_date=fd, to_date=td, allow_negative_balances=case["neg"])
+    cfg = Configuration(INI, country_of(case)[0], from_date=fd, to_date=td, allow_negative_balances=case["neg"])
     try:
         cd = compute_tax(cfg, engine(case["sched"]), build_asset(cfg, "B1", rows if rows is not None else case["rows"]))
     except RP2Error as e:
@@ -217,7 +240,8 @@ def run_impl(case, fd="case", td="case", rows=None):
 def encode(case):
     fd = date.fromisoformat(case["from"]) if case["from"] else None
     td = date.fromisoformat(case["to"]) if case["to"] else None
-    L = [f"CFG {PERIOD} {1 if case['neg'] else 0} {o(ordn(fd) if fd else None)} {o(ordn(td) if td else None)}"] + [f"SCHED {y} {m}" for y, m in case["sched"].items()]
+    period = {"us": 365, "generic": case.get("period", 365)}.get(case.get("country", "us"), sys.maxsize)
+    L = [f"CFG {period} {1 if case['neg'] else 0} {o(ordn(fd) if fd else None)} {o(ordn(td) if td else None)}"] + [f"SCHED {y} {m}" for y, m in case["sched"].items()]
     L += encode_rows(case["rows"])
     return L + ["RUN"]
 
@@ -439,10 +463,11 @@ def oracle_c05(case, res, guard=True):
     if res["status"] != "ok":
         return None
     rows = {r[1]: r for r in case["rows"]}
+    period = {"us": 365, "generic": case.get("period", 365)}.get(case.get("country", "us"))      # None: never long-term (jp, ie)
     for k, f in enumerate(res["fractions"]):
-        exp = f["lot"] is not None and rows[f["ev"]][2] - rows[f["lot"]][2] >= PERIOD * 86400 * 10**6
+        exp = period is not None and f["lot"] is not None and rows[f["ev"]][2] - rows[f["lot"]][2] >= period * 86400 * 10**6
         if f["long"] != exp:
-            return f"fraction {k}: long={f['long']} but holding period is {(rows[f['ev']][2] - rows[f['lot']][2]) if f['lot'] else None} µs (threshold {PERIOD} days)"
+            return f"fraction {k}: long={f['long']} but holding period is {(rows[f['ev']][2] - rows[f['lot']][2]) if f['lot'] else None} µs (country {case.get('country', 'us')}, threshold {period} days)"
     return None
 
 
